@@ -81,10 +81,15 @@ fn make_trains(rng: &mut Rng, shape: &[usize], slots: usize) -> Option<Vec<Train
     if shape.len() > slots {
         return None;
     }
+    let base = rng.below(36) as u8;
     for (i, nf) in shape.iter().enumerate() {
         // ids distinct modulo the slot count (with one slot per id, the extreme ids are used)
         let id = if slots >= 256 {
-            [0u8, 255, 254, 1, 128][i % 5]
+            [0u8, 255, 64, 1, 128][i % 5]
+        } else if slots == 100 || slots == 200 {
+            // large memories: ids 64 and 128 apart (one-bit-per-slot summaries folded modulo a machine word)
+            let b = base;
+            [b, b + 64, if slots == 200 { b + 128 } else { b + 27 }, b + 1, b + 65][i % 5]
         } else if slots == 255 {
             // 255 slots: ids 0..=254 are distinct slots, id 255 shares slot 0 (used as the aliasing stray)
             [0u8, 254, 1, 127, 128][i % 5]
@@ -137,7 +142,7 @@ impl Property for Prop {
         "C07"
     }
     fn rule(&self) -> &'static str {
-        "merges: for each shape (fragments per PDU: 2x2, 2x3, 3x3, 2x4, 2x5, 3x4, 4x4, 5x5, 3x3x3, 2x3x4, 2x2x2x2, 2x2x3; thorough adds 4x4x4, 3x3x3x3, 5x5x2x2, 4x5x5, 2x2x2x3) trains are built by the real encapsulator on fragment ids distinct modulo the slot count (each shape on memories of 4, 3, 6 and 5 slots) and EVERY order-preserving merge is decapsulated on a fresh receiver (key = shape x memory size x 8 parts of the merge index space); the result stream restricted to each train must equal that train decapsulated alone, with exactly one delivery per PDU at its own end fragment. strays: for every merge of the small shapes one stray packet is inserted at EVERY position from {intermediate / end of an unknown id in an empty slot, intermediate / end of an id aliasing an open slot (id +/- slots), complete packet (accepted), complete packet too large for the storage (rejected), padding, a first fragment of an unknown or aliasing id that the receiver refuses (unknown mandatory extension, null label, total length too small: a refused first fragment does not claim the slot), and the non-packet event 'the application provisions storage until the memory reports it is full'}; the packet strays whose rejection must consume exactly the packet are also presented FRAMED (stray and the following train packet in one buffer, walked by consumed lengths). restart: a new first fragment on the same id restarts only that id. sampled: random merges of 4x5 with an aliasing stray on memories of 4..7 and 256 slots (ids 0, 255, 254, 1 there). reuse-strays: all merges of 2x2, 2x3, 3x3, 2x2x2 where every PDU carries the same label and the re-use-enabled encapsulator is driven in the merge order (substituted first fragments), with a stray intermediate / end packet of an unknown or aliasing id at every position; reference = the same stream without the stray; additionally an extra PDU whose damaged end fragment (length mismatch) is rejected at every position. scarce: 4 trains of 3 fragments with only 1..3 storage buffers: every PDU whose first fragment was accepted is delivered exactly once. (All receivers are built with max_pdu_frag = length of the longest train.) Evaluations = decap calls; non-trivial = a merge in which at least two trains were really interleaved; fingerprint = hash(shape, merge order, stray)."
+        "merges: for each shape (fragments per PDU: 2x2, 2x3, 3x3, 2x4, 2x5, 3x4, 4x4, 5x5, 3x3x3, 2x3x4, 2x2x2x2, 2x2x3; thorough adds 4x4x4, 3x3x3x3, 5x5x2x2, 4x5x5, 2x2x2x3) trains are built by the real encapsulator on fragment ids distinct modulo the slot count (each shape on memories of 4, 3, 6 and 5 slots) and EVERY order-preserving merge is decapsulated on a fresh receiver (key = shape x memory size x 8 parts of the merge index space); the result stream restricted to each train must equal that train decapsulated alone, with exactly one delivery per PDU at its own end fragment. strays: for every merge of the small shapes one stray packet is inserted at EVERY position from {intermediate / end of an unknown id in an empty slot, intermediate / end of an id aliasing an open slot (id +/- slots), complete packet (accepted), complete packet too large for the storage (rejected), padding, a first fragment of an unknown or aliasing id that the receiver refuses (unknown mandatory extension, null label, total length too small: a refused first fragment does not claim the slot), an intermediate / end fragment carrying a train's own id before that train has started, and the non-packet event 'the application provisions storage until the memory reports it is full'}; the packet strays whose rejection must consume exactly the packet are also presented FRAMED (stray and the following train packet in one buffer, walked by consumed lengths). restart: a new first fragment on the same id restarts only that id (also when the abandoned and the new PDU differ in label mode: one first fragment carries its label, the other re-uses the preceding packet's). sampled: random merges of 4x5 with an aliasing stray on memories of 4..7, 255, 256 slots (ids 0, 255, 64, 1 there) and 100 / 200 slots (ids 64 and 128 apart). reuse-strays: all merges of 2x2, 2x3, 3x3, 2x2x2 where every PDU carries the same label and the re-use-enabled encapsulator is driven in the merge order (substituted first fragments), with a stray intermediate / end packet of an unknown or aliasing id at every position; reference = the same stream without the stray; additionally an extra PDU whose damaged end fragment (length mismatch) is rejected at every position. scarce: 4 trains of 3 fragments with only 1..3 storage buffers: every PDU whose first fragment was accepted is delivered exactly once. (All receivers are built with max_pdu_frag = length of the longest train.) Evaluations = decap calls; non-trivial = a merge in which at least two trains were really interleaved; fingerprint = hash(shape, merge order, stray)."
     }
     fn gens(&self, cx: &Cx) -> Vec<Gen> {
         let s = shapes(cx).len() as u64;
@@ -157,7 +162,7 @@ impl Property for Prop {
         // key layout for merges / strays: ((shape * SLOTV) + slot variant) * PARTS + part
         let slots = match gen {
             "merges" | "strays" => SLOT_VARIANTS[((key / PARTS) % SLOTV) as usize],
-            "sampled" | "scarce" => [4usize, 5, 6, 7, 256, 255][(key % 6) as usize],
+            "sampled" | "scarce" => [4usize, 5, 6, 7, 256, 255, 100, 200][(key % 8) as usize],
             _ => [4usize, 3, 6, 5, 2, 8][(key % 6) as usize],
         };
         let table = MandTable::none();
@@ -312,6 +317,11 @@ impl Property for Prop {
                     strays.push((crate::hostile::mk_first(1, &[9, 9, 9], alias, 3, 0x0800, b"firstfirst"), "first-aliasing-id-refused-short-total", false));
                     // not a packet: the application tops the free list up until the memory says it is full
                     strays.push((vec![], "provision-until-full", false));
+                    // an intermediate / end fragment carrying the id of train 0 / of the last train BEFORE that train
+                    // has started (only positions up to the train's first packet are used): it is refused and must
+                    // not be remembered against the train that starts afterwards
+                    strays.push((mk_inter(trains[0].id, b"early"), "early-intermediate-of-train-0", true));
+                    strays.push((mk_end(trains[trains.len() - 1].id, b"early", 0x0BAD_C0DE), "early-end-of-last-train", true));
                 }
                 let mut counts = shape.clone();
                 let mut cur = Vec::new();
@@ -329,6 +339,12 @@ impl Property for Prop {
                     } else {
                         for (si, (pkt, name, frameable)) in strays.iter().enumerate() {
                             for at in 0..=total {
+                                if name.starts_with("early-") {
+                                    let tr = if name.ends_with("train-0") { 0 } else { trains.len() - 1 };
+                                    if at > order.iter().position(|x| *x == tr).unwrap_or(0) {
+                                        continue;
+                                    }
+                                }
                                 for framed in [false, true] {
                                     if framed && (!*frameable || at == total) {
                                         continue;
@@ -654,6 +670,90 @@ impl Property for Prop {
                 }
                 rep.count("c07.restarts");
                 rep.nontrivial(mix(0x4E57, key));
+                // the same with the two PDUs on the id in DIFFERENT label modes (one first fragment carries its label,
+                // the other re-uses the label of the packet before it): built by one re-use-enabled encapsulator
+                let mode = key % 2; // 0: old train written label, new train re-use; 1: the reverse
+                let label = gen_label(&mut rng, if key % 4 < 2 { 0 } else { 2 });
+                let ll = label_bytes(&label).len();
+                let idx = trains[0].id;
+                let mut enc = Encapsulator::new(DefaultCrc {});
+                let old_pdu = rng.bytes(30);
+                let new_pdu = rng.bytes(33);
+                let mut stream: Vec<(Vec<u8>, &str)> = Vec::new();
+                let mut emit = |enc: &mut Encapsulator<DefaultCrc>, pdu: &[u8], ctx: Option<dvb_gse_rust::gse_encap::ContextFrag>, bl: usize| -> Option<(Vec<u8>, Option<dvb_gse_rust::gse_encap::ContextFrag>)> {
+                    let mut b = vec![0u8; bl];
+                    let r = match ctx {
+                        None => crate::mon::guard(|| enc.encap(pdu, idx, EncapMetadata::new(0x0800, label), &mut b)),
+                        Some(c) => crate::mon::guard(|| enc.encap_frag(pdu, &c, &mut b)),
+                    };
+                    match r {
+                        Ok(Ok(st)) => {
+                            let (n, c) = status_parts(&st);
+                            b.truncate(n);
+                            Some((b, c))
+                        }
+                        _ => None,
+                    }
+                };
+                // mode 0: [old first (label written)] [new first (re-use)] ...; mode 1: [complete (label written)] [old first
+                // (re-use)] then reset of the sender's label memory so that [new first] carries the label again
+                let mut ok = true;
+                if mode == 1 {
+                    match emit(&mut enc, b"", None, 64) {
+                        Some((p, None)) => stream.push((p, "C0")),
+                        _ => ok = false,
+                    }
+                }
+                let old_first = emit(&mut enc, &old_pdu, None, 7 + ll + 10);
+                if mode == 1 {
+                    enc.reset_last_label();
+                }
+                let new_first = emit(&mut enc, &new_pdu, None, 7 + ll + 10);
+                match (old_first, new_first) {
+                    (Some((of, Some(_))), Some((nf, Some(nc)))) if ok => {
+                        let lt_old = crate::wire::lt_of_word(u16::from_be_bytes([of[0], of[1]]));
+                        let lt_new = crate::wire::lt_of_word(u16::from_be_bytes([nf[0], nf[1]]));
+                        if (lt_old == 3) == (lt_new == 3) {
+                            rep.count("c07.restart-modes-not-different");
+                        } else {
+                            stream.push((of, "F"));
+                            stream.push((nf, "F"));
+                            let mut c = Some(nc);
+                            while let Some(cc) = c {
+                                match emit(&mut enc, &new_pdu, Some(cc), 3 + 12) {
+                                    Some((p, c2)) => {
+                                        stream.push((p, if c2.is_some() { "F" } else { "Cn" }));
+                                        c = c2;
+                                    }
+                                    None => {
+                                        rep.count("c07.restart-sender-failed");
+                                        return;
+                                    }
+                                }
+                            }
+                            let mut d = plain_dec(slots, 64, (slots + 2).min(10), 64, table.clone());
+                            for (i, (p, want)) in stream.iter().enumerate() {
+                                rep.eval();
+                                let r = dec_guard(&mut d, p);
+                                let good = match (&r, *want) {
+                                    (Ok(Ok((DecapStatus::FragmentedPkt(_), _))), "F") => true,
+                                    (Ok(Ok((DecapStatus::CompletedPkt(_, _), _))), "C0") => true,
+                                    (Ok(Ok((DecapStatus::CompletedPkt(b, m), _))), "Cn") => m.pdu_len() == new_pdu.len() && b[..new_pdu.len()] == new_pdu[..] && m.label() == label,
+                                    _ => false,
+                                };
+                                if !good {
+                                    rep.violation("C07", format!("restart-on-same-id-other-label-mode:{}", if mode == 0 { "written-then-re-use" } else { "re-use-then-written" }), || format!("id {}: a PDU whose first fragment has label type bits {} is abandoned, a PDU whose first fragment has label type bits {} restarts the id; packet {} ({}): expected {}, got {}", idx, lt_old, lt_new, i, hex_short(p, 24), want, outcome(&r)), &replay);
+                                    return;
+                                }
+                                if let Ok(Ok((DecapStatus::CompletedPkt(b, _), _))) = r {
+                                    let _ = d.provision_storage(b);
+                                }
+                            }
+                            rep.count("c07.restarts-other-label-mode");
+                        }
+                    }
+                    _ => rep.count("c07.restart-sender-failed"),
+                }
             }
             "sampled" => {
                 let mut rng = Rng::derive(cx.seed, fnv(gen.as_bytes()), key);
@@ -699,7 +799,7 @@ impl Property for Prop {
         }
     }
     fn floors(&self, _cx: &Cx, rep: &mut Report) {
-        for k in ["c07.merges", "c07.interleaved", "c07.stray-runs", "c07.restarts", "c07.sampled-ok", "c07.reuse.stray-runs", "c07.scarce-ok", "c07.reuse.bad-end-runs"] {
+        for k in ["c07.merges", "c07.interleaved", "c07.stray-runs", "c07.restarts", "c07.sampled-ok", "c07.reuse.stray-runs", "c07.scarce-ok", "c07.reuse.bad-end-runs", "c07.restarts-other-label-mode"] {
             if rep.get(k) == 0 {
                 rep.floors_missing.push(format!("C07 floor: counter {} is 0", k));
             }
